@@ -192,9 +192,11 @@ def prove(built, fn, verbose=False, trace=False, keep=False, case=None):
         args = []
         for g in group:
             args += ['--property', g]
-        r = run(['cbmc', gb2, '--json-ui'] + flags + args, tmo)
+        first = ['--sat-solver', 'cadical'] if sp.solver == 'cadical' else []
+        second = [] if sp.solver == 'cadical' else ['--sat-solver', 'cadical']
+        r = run(['cbmc', gb2, '--json-ui'] + first + flags + args, tmo)
         if r[0] == -9:
-            r2 = run(['cbmc', gb2, '--json-ui', '--sat-solver', 'cadical'] + flags + args, tmo)
+            r2 = run(['cbmc', gb2, '--json-ui'] + second + flags + args, tmo)
             if r2[0] != -9:
                 res.setdefault('cadical_groups', 0); res['cadical_groups'] += 1
                 return (r2[0], r2[1], r2[2], r[3] + r2[3])
